@@ -423,6 +423,7 @@ class Controller(object):
         # Step from xopt along a random direction orthogonal to other yt (or multiple mutually orthogonal steps)
         xopt = self.model.xopt()
         dirns = random_directions_within_bounds(num_steps, step_length, self.model.sl - xopt, self.model.su - xopt)
+        orig_dirns = dirns.copy()
         # Make direction orthogonal
         Y = self.model.xpt_directions(include_kopt=False).T  # columns are the current set of directions
         Q, R = LA.qr(Y, mode='economic')  # columns of Q are orthonormal basis for current set of directions
@@ -430,6 +431,11 @@ class Controller(object):
             qk = Q[:, k]
             for j in range(dirns.shape[0]):
                 dirns[j, :] = dirns[j, :] - np.dot(dirns[j, :], qk) * qk
+        # If the current directions already span the whole space (e.g. growing towards npt > n+1 points after a restart
+        # which increased npt), nothing is left after orthogonalising: use the original random direction instead
+        for j in range(dirns.shape[0]):
+            if LA.norm(dirns[j, :]) <= 1e-8 * LA.norm(orig_dirns[j, :]):
+                dirns[j, :] = orig_dirns[j, :]
 
         # Evaluate the points
         for j in range(num_steps):
@@ -464,12 +470,15 @@ class Controller(object):
         # Step from xopt along a random direction orthogonal to other yt (or multiple mutually orthogonal steps)
         xopt = self.model.xopt()
         dirn = random_directions_within_bounds(1, step_length, self.model.sl - xopt, self.model.su - xopt)[0, :]
+        orig_dirn = dirn.copy()
         # Make direction orthogonal
         Y = self.model.xpt_directions(include_kopt=False).T  # columns are the current set of directions
         Q, R = LA.qr(Y, mode='economic')  # columns of Q are orthonormal basis for current set of directions
         for k in range(Q.shape[1]):
             qk = Q[:, k]
             dirn = dirn - np.dot(dirn, qk) * qk
+        if LA.norm(dirn) <= 1e-8 * LA.norm(orig_dirn):  # current directions already span the whole space
+            dirn = orig_dirn
 
         return dirn * (step_length / LA.norm(dirn))
 
